@@ -414,7 +414,10 @@ func (r *resolver) applyDeviation(y *Module, d *Deviation) error {
 			}
 		}
 		for _, unique := range d.Add.unique {
-			target.(*List).unique = append(target.(*List).unique, unique)
+			// the copies of a list that comes from a grouping share what the grouping
+			// states, this one gets a list of its own
+			l := target.(*List)
+			l.unique = append(append([][]string{}, l.unique...), unique)
 		}
 	}
 	if d.Replace != nil {
